@@ -183,6 +183,9 @@ pub enum End {
     Commit,
     Abort,
     Drop,
+    /// the application panics while the transaction is live; the unwinding drops it (its pages
+    /// stay allocated in memory until the next open rebuilds the allocator state)
+    Panic,
 }
 
 #[derive(Clone, Debug, Serialize, Deserialize, PartialEq)]
